@@ -7,7 +7,7 @@ REQUIRED_THEOREMS = ["framing_exact", "framing_exact_from_state", "chunking_inde
                      "split_unique"]
 TRIVIAL_TAGS = {"const"}
 RULE = ("requests `frame <skip> <trim> <kind> <r> (<chunks>)` over well-formed packet streams built by an independent "
-        "encoder: data fields 1..65536 (biased to 1,2,6,7,max), prefix 0..9, kinds bytes/file/socket, read sizes "
+        "encoder: data fields 1..65536 (biased to 1,2,6,7,max), prefix 0..9, kinds bytes/file/socket/pipe (a buffered file object that cannot seek), read sizes "
         "1,2,5,6,7,13,4096,default, scripted short reads and fragmentations (every cut inside a header, on packet "
         "boundaries, 1 byte at a time), trim branch exercised by substituting the 20_000_000 literal of the real "
         "code object; non-trivial = at least one packet in the stream; distinct = distinct request line")
@@ -35,7 +35,7 @@ def generate(rng, tier):
     yield "const hdrlen", "const"
     yield "const trim", "const"
     n = 120 if tier == "quick" else 1500
-    kinds = ["bytes", "file", "socket"]
+    kinds = ["bytes", "file", "socket", "pipe"]
     for i in range(n):
         skip = rng.choice([0, 0, 0, 1, 2, 4, 9])
         npk = rng.choice([0, 1, 1, 2, 3, 5, 8])
@@ -71,7 +71,7 @@ def generate(rng, tier):
         if len(data) > 80:
             data = rng.randbytes(skip) + pu.mk_packet(rng, 2) + rng.randbytes(skip) + pu.mk_packet(rng, 7)
         for c in range(1, len(data)):
-            for kind in ("file", "socket"):
+            for kind in ("file", "socket", "pipe"):
                 yield pu.frame_line(skip, rng.choice([pu.REAL_TRIM, 5]), kind, 0, [data[:c], data[c:]]), "cut-sweep"
     if tier == "thorough":
         # one genuine stream beyond the real 20 MB trim threshold, maximum-size packets
